@@ -17,6 +17,7 @@ import DfolsVerif.Proofs.BookAccB
 import DfolsVerif.Properties.C04
 import DfolsVerif.Properties.C02
 import DfolsVerif.Proofs.ExitSitesC08
+import DfolsVerif.Proofs.TrySites
 
 namespace Dfols
 namespace C08
@@ -83,6 +84,23 @@ theorem C08_src_fault_exits :
       (⟨true, "np.any(np.isnan(rvec_list))", "", ""⟩ : Lit) ∈ s.path) ∧
     (Gen.exitSites.filter (·.flag = "EXIT_EVAL_ERROR")).length = 1 :=
   ⟨ExitSitesC08.evalError_sites, by decide +kernel⟩
+
+/-! ### layer G: no handler of the package can intercept an exception of the residual function -/
+
+/-- **no `try` block reaches the residual function** (tables regenerated from the AST of the whole package on every run: the seven
+    `try` blocks with the functions called in their bodies, the call graph between package functions, the functions that call
+    `objfun`): a package function reachable through the call graph from a call made inside ANY `try` body neither is `objfun` nor
+    calls it — so an exception raised inside the residual function meets no `except` clause of the package on its way to the caller
+    (seeded change C08_9 moved the `objfun` call into the `try … except OverflowError` of
+    `eval_least_squares_with_regularisation`).  Calls into NumPy / SciPy are not package functions; user projections and the
+    regulariser are other callbacks. -/
+theorem C08_src_no_handler_around_objfun {f : String} (h : TrySites.Reach Gen.callEdges TrySites.roots f) :
+    f ∉ Gen.objfunCallers ∧ f ≠ "objfun" :=
+  TrySites.no_handler_around_objfun h
+
+/-- non-vacuity: seven `try` blocks, one direct caller of the residual function, a non-trivial reachable set -/
+example : Gen.trySites.length = 7 ∧ Gen.objfunCallers = ["eval_least_squares_with_regularisation"] ∧ TrySites.reachSet.length > 20 := by
+  decide +kernel
 
 end C08
 end Dfols
